@@ -44,6 +44,7 @@ PROP = [
  ("group with a BOOLEAN key column vanished with its NULL aggregates", "C04", "`SELECT b, s, BOOL_OR(b) .. GROUP BY b, s` over Parquet lost the (NULL, NULL) group when its aggregates were NULL too (generic accessor arm did not mark NULL as u64::MAX); memory kept it (thorough tier)"),
  ("PackedJoinKeys proved its bounds from one join side", "C04", "a two-column integer join over Parquet matched (6,0) with (5,4): PackedJoinKeys bounded the second key by the one table that had statistics, the other (written without statistics) held a larger value (thorough tier)"),
  ("probing with a dictionary-encoded string key matched nothing", "C09", "t1 a LEFT JOIN t0 b ON a.k = b.k LEFT JOIN (..) c ON b.s = c.s answered c.* NULL for every row on the single node (1092 rows) while the cluster answered 13104: the first join hands b.s on as a dictionary array and the vectorized probe neither hashed nor compared it (thorough tier)"),
+ ("top-N sorted by the wrong column when a qualified sort key", "C09", "SELECT a.k, b.k AS bk .. ORDER BY b.k LIMIT n: the top-N merge query sorted the shards' pages by \"k\" (a.k), so forced-distributed returned other rows than one node; first noticed by a sub-agent from reading plan_topn, then produced by the generator (page sorted by a qualified tail)"),
  ("late cross-process sidecar builder deleted", "C20", "a second process finishing its sidecar build removed the directory another process had just published while readers were opening its files: queries failed with ENOENT"),
 ]
 kf_path = os.path.join(HERE, "known_findings.json")
